@@ -39,9 +39,10 @@ def gen_ann(rng, d, hashable=False, top=False):
         if k < 0.70: return ['cls', gen_leaf_cls(rng)]
         if k < 0.78: return ['any']
         if k < 0.86: return ['fwd', rng.choice(CTX)[0]]
-        if k < 0.93: return ['newtype', ['cls', rng.choice(['int', 'str', ['user', [0]], 'float', 'list'])]]
+        if k < 0.91: return ['newtype', ['cls', rng.choice(['int', 'str', ['user', [0]], 'float', 'list'])]]
+        if k < 0.93: return ['newtype', ['newtype', ['cls', rng.choice(['int', ['user', [0]]])]]]
         return gen_literal(rng)
-    kinds = ['union', 'union', 'optional', 'tuple', 'tuplevar', 'frozenset', 'literal', 'type']
+    kinds = ['union', 'union', 'optional', 'tuple', 'tuplevar', 'frozenset', 'literal', 'type', 'tupleempty', 'newtype']
     if not hashable:
         kinds += ['elems'] * 5 + ['mapping'] * 3 + ['items', 'callable', 'tuple', 'union']
     k = rng.choice(kinds)
@@ -58,6 +59,10 @@ def gen_ann(rng, d, hashable=False, top=False):
         return ['gen', sp, 'Tuple', [gen_ann(rng, d - 1, hashable) for _ in range(rng.choice([1, 2, 2, 3]))]]
     if k == 'tuplevar':
         return ['tuplevar', sp, gen_ann(rng, d - 1, hashable)]
+    if k == 'tupleempty':
+        return ['tupleempty', sp]
+    if k == 'newtype':
+        return ['newtype', gen_ann(rng, d - 1, hashable)]
     if k == 'frozenset':
         return ['gen', sp, 'FrozenSet', [gen_ann(rng, d - 1, True)]]
     if k == 'literal':
@@ -155,6 +160,8 @@ def gen_conf(rng, a, size=3):
         return gen_of_cls(rng, c)
     if k == 'tuplevar':
         return ['tuple', [gen_conf(rng, a[2], size) for _ in range(n())]]
+    if k == 'tupleempty':
+        return ['tuple', []]
     if k == 'callable':
         if rng.random() < 0.15: return ['lambda']
         ra = lambda x: 'any' if x[0] == 'any' else x[1]
@@ -224,6 +231,8 @@ def corrupt(rng, a, v, hashable=False):
         return rng.choice(pool)
     if k == 'any':
         return None
+    if k == 'tupleempty':
+        return rng.choice([['tuple', [['int', 1]]], ['none'], ['tuple', [['tuple', []]]]] + ([] if hashable else [['list', []]]))
     if k == 'union':
         return rng.choice([['object'], ['class', 'bytes']]) if not hashable else ['object']
     if k == 'callable':
@@ -289,4 +298,34 @@ def respell(rng, a):
         return ['gen', sp, a[2], [respell(rng, x) for x in a[3]]]
     if k == 'tuplevar':
         return ['tuplevar', 'builtin' if a[1] == 'typing' else 'typing', respell(rng, a[2])]
+    if k == 'tupleempty':
+        return ['tupleempty', 'builtin' if a[1] == 'typing' else 'typing']
     return a
+
+
+ABC_NAMES = ['Iterable', 'Collection', 'Container', 'Sequence', 'MutableSequence', 'AbstractSet', 'MutableSet', 'Mapping', 'MutableMapping',
+             'KeysView', 'ValuesView', 'ItemsView', 'Deque', 'DefaultDict']
+
+
+def to_abc(rng, a):
+    """re-spell (some of) the abstract-collection generics of `a` the PEP 585 way: collections.abc.Sequence[int] ...
+    returns None when `a` contains none"""
+    hit = [False]
+
+    def go(x):
+        k = x[0]
+        if k == 'union':
+            return ['union', x[1], [go(y) for y in x[2]]]
+        if k == 'gen':
+            args = [go(y) for y in x[3]] if x[2] != 'Type' else x[3]
+            if x[2] in ABC_NAMES and x[1] == 'typing' and (not hit[0] or rng.random() < 0.5):
+                hit[0] = True
+                return ['gen', 'abc', x[2], args]
+            return ['gen', x[1], x[2], args]
+        if k == 'tuplevar':
+            return ['tuplevar', x[1], go(x[2])]
+        if k == 'newtype':
+            return ['newtype', go(x[1])]
+        return x
+    r = go(a)
+    return r if hit[0] else None
